@@ -14,13 +14,19 @@ env = dict(os.environ, SYM_MODE=mode, SYM_PROCS="16", SYM_OUT=out, SYM_BUDGET_S=
 if fix: env["SYM_FIX"] = fix
 t = time.time(); p = subprocess.run([exe], env=env, capture_output=True, text=True); print("wall %.1f" % (time.time() - t), p.stdout[-500:], p.stderr[-300:])
 c = collections.defaultdict(collections.Counter)
+groups = {}
 for l in open(out):
     try: r = json.loads(l)
     except Exception: continue
     c[r.get("config", "")][r["kind"]] += 1
     if r.get("unknowns", 0): c[r.get("config", "")]["with-unknown"] += 1
-    if r["kind"] in ("FAIL", "ABORT", "CRASH"): print(json.dumps(r)[:700])
-for k in sorted(c):
-    if set(c[k]) - {"OK"} or "-v" in sys.argv: print(k, dict(c[k]))
+    if r["kind"] in ("FAIL", "ABORT", "CRASH", "CUT"):
+        g = groups.setdefault((r["kind"], r.get("msg", "")), [])
+        g.append(r)
+for (kind, msg), g in sorted(groups.items()):
+    print("%s x%d: %s" % (kind, len(g), msg))
+    for r in g[:int(os.environ.get("PROBE_N", "3"))]: print("     ", r.get("config"), json.dumps(r.get("model"))[:300])
+if "-v" in sys.argv:
+    for k in sorted(c): print(k, dict(c[k]))
 print("configs", len(c), "all-OK", sum(1 for k in c if not (set(c[k]) - {"OK"})))
 os.remove(out)
